@@ -53,7 +53,7 @@ Definition final_state_ok (g : goal) (r : region) : Prop :=
   (forall x, In x (placement (peers r)) -> exists y, In y (g_target g) /\ fst x = fst y /\ snd x = snd y) /\
   (forall y, In y (g_target g) -> exists x, In x (placement (peers r)) /\ fst y = fst x /\ snd y = snd x) /\
   (g_leader g <> 0 -> leader r = g_leader g) /\
-  (exists p, In p (peers r) /\ pstore p = leader r /\ prole p = Voter).
+  (exists p, In p (peers r) /\ pstore p = leader r /\ (prole p = Voter \/ prole p = Incoming)).
 
 Definition transition_ok (g : goal) (t : transition) : Prop :=
   let '(r, s, r') := t in
@@ -129,7 +129,7 @@ Proof.
   destruct (negb (g_leader g =? 0) && negb (leader r =? g_leader g)) eqn:E2; [discriminate|].
   destruct (get_store_peer r (leader r)) as [p|] eqn:E3; cbn [negb] in H.
   2:{ discriminate. }
-  destruct (role_eqb (prole p) Voter) eqn:E4; cbn [negb] in H; [|discriminate].
+  destruct (new_voter p) eqn:E4; cbn [negb] in H; [|discriminate].
   unfold same_placement in E1. apply andb_true_iff in E1 as [Ea Eb].
   rewrite forallb_forall in Ea, Eb.
   split; [|split; [|split]].
@@ -140,7 +140,8 @@ Proof.
   - intros Hne. apply andb_false_iff in E2 as [E2|E2].
     + apply negb_false_iff, Z.eqb_eq in E2. contradiction.
     + apply negb_false_iff, Z.eqb_eq in E2. exact E2.
-  - exists p. apply get_store_peer_In in E3 as [Ha Hb]. apply role_eqb_eq in E4. auto.
+  - exists p. apply get_store_peer_In in E3 as [Ha Hb]. unfold new_voter in E4.
+    destruct (prole p); try discriminate; auto.
 Qed.
 
 Lemma exec_step_done r s c r' :
